@@ -1,1 +1,121 @@
-// harnesses for hexane/src/bool.rs
+// G-HEX-bool: boolean columns - the validator (bool_validate_encoding, run by load over untrusted
+// bytes) against the decoder every read uses afterwards. Child module of hexane::bool.
+// The Leb128 reads are stubbed with the reference readers (see hx_rle_load.rs / codec_ref_equiv_len*).
+use super::*;
+use crate::verif_kani::ref_read_unsigned;
+
+const K: usize = 4;
+
+/// Independent reading of the format: alternating run lengths, first run = false.
+/// Value of item `i`, or None past the end.
+fn oracle_item(b: &[u8], i: usize) -> Option<bool> {
+    let mut pos = 0;
+    let mut value = false;
+    let mut seen: usize = 0;
+    let mut guard = 0;
+    while pos < b.len() && guard < 8 {
+        let (cb, count) = ref_read_unsigned(&b[pos..])?;
+        let count = count as usize;
+        if i < seen.wrapping_add(count) && i >= seen {
+            return Some(value);
+        }
+        seen = seen.wrapping_add(count);
+        pos += cb;
+        value = !value;
+        guard += 1;
+    }
+    None
+}
+
+/// For EVERY N-byte slab: bool_validate_encoding is total; if it accepts, the decoder yields
+/// exactly `len` items (the first K are pulled), each equal to the independent reading of the run
+/// lengths, and never loops without consuming input.
+fn validate_then_decode<const N: usize>() {
+    let b: [u8; N] = kani::any();
+    match bool_validate_encoding::<Leb128>(&b) {
+        Ok(info) => {
+            assert!(info.segments <= N && info.segments >= 1);
+            let mut d = BoolDecoder::<Leb128>::new(&b);
+            let mut k = 0;
+            while k < K {
+                match d.next() {
+                    Some(v) => {
+                        assert!(k < info.len);
+                        assert!(oracle_item(&b, k) == Some(v));
+                    }
+                    None => {
+                        assert!(k == info.len);
+                        break;
+                    }
+                }
+                k += 1;
+            }
+            kani::cover!(info.len == 2 && info.segments == 2);
+            kani::cover!(info.len > K);
+        }
+        Err(e) => {
+            kani::cover!(true);
+            std::mem::forget(e);
+        }
+    }
+}
+
+macro_rules! bool_harness {
+    ($name:ident, $n:expr, $unwind:expr) => {
+        bool_harness!($name, $n, $unwind, validate_then_decode);
+    };
+    ($name:ident, $n:expr, $unwind:expr, $f:ident) => {
+        #[kani::proof]
+        #[kani::unwind($unwind)]
+        #[kani::stub(alloc::fmt::format, crate::verif_kani::stub_format)]
+        #[kani::stub(<crate::codec::Leb128 as crate::codec::Codec>::read_unsigned, crate::verif_kani::ref_read_unsigned)]
+        #[kani::stub(<crate::codec::Leb128 as crate::codec::Codec>::read_signed, crate::verif_kani::ref_read_signed)]
+        #[kani::stub(<crate::codec::Leb128 as crate::codec::Codec>::try_read_unsigned, crate::verif_kani::ref_try_read_unsigned)]
+        #[kani::stub(<crate::codec::Leb128 as crate::codec::Codec>::try_read_signed, crate::verif_kani::ref_try_read_signed)]
+        fn $name() {
+            $f::<$n>()
+        }
+    };
+}
+bool_harness!(bool_validate_then_decode_len2, 2, 9);
+bool_harness!(bool_validate_then_decode_len3, 3, 9);
+bool_harness!(bool_validate_then_decode_len4, 4, 9);
+
+/// The skipping read: on EVERY accepted N-byte slab and every k < K, nth(k) is the independent
+/// reading's item k (None exactly past the end).
+fn nth_matches_oracle<const N: usize>() {
+    let b: [u8; N] = kani::any();
+    if let Ok(info) = bool_validate_encoding::<Leb128>(&b) {
+        let k: usize = kani::any();
+        kani::assume(k < K);
+        let mut d = BoolDecoder::<Leb128>::new(&b);
+        let got = d.nth(k);
+        assert!(got == oracle_item(&b, k));
+        assert!(got.is_some() == (k < info.len));
+        // and the decoder continues with item k+1
+        assert!(d.next() == oracle_item(&b, k + 1));
+        kani::cover!(k > 0 && got == Some(true));
+        kani::cover!(got.is_none());
+    }
+}
+
+bool_harness!(bool_nth_matches_oracle_len3, 3, 9, nth_matches_oracle);
+bool_harness!(bool_nth_matches_oracle_len4, 4, 9, nth_matches_oracle);
+
+/// Concrete witness: two runs of u64::MAX items each (20 bytes). The loader accumulates run lengths
+/// from the wire; it must answer Ok or Err, not overflow (it overflowed before the fix: commit).
+#[kani::proof]
+#[kani::unwind(12)]
+#[kani::stub(alloc::fmt::format, crate::verif_kani::stub_format)]
+#[kani::stub(<crate::codec::Leb128 as crate::codec::Codec>::read_unsigned, crate::verif_kani::ref_read_unsigned)]
+fn bool_load_two_max_runs_concrete() {
+    let mut b = [0xffu8; 20];
+    b[9] = 1;
+    b[19] = 1;
+    kani::cover!(true, "entry (replay witness)");
+    let it = BoolLoadIter::<Leb128>::new(&b, 64);
+    let r = it.finalize();
+    assert!(r.is_err());
+    kani::cover!(r.is_err());
+    std::mem::forget(r);
+}
